@@ -1,9 +1,9 @@
 /-
 Generation-independent lemmas for the round-2 source theorems (`cXX_src_*` of C09, C11, C12, C13, C14, C15, C17, C19):
-the translator's `bytes` built-ins (`PyBytes.lean`) expressed through the functions the hand models use.
+the translator's `bytes` built-ins (`PyBytes.lean`, `PyBytes2.lean`) expressed through the functions the hand models use.
 Nothing here mentions a `Generated.*` definition: a source change can never break this file.
 -/
-import TonVerif.PyBytes
+import TonVerif.PyBytes2
 import TonVerif.Model.Cell
 import TonVerif.Proofs.SrcArith
 
